@@ -27,6 +27,10 @@ pub trait Dyn {
     fn clone_box(&self) -> Option<Box<dyn Dyn>> {
         None
     }
+    /// Clone::clone_from(self, other): overwrite self with a copy of other (same concrete type)
+    fn clone_from_dyn(&mut self, _o: &dyn Dyn) -> bool {
+        false
+    }
     fn eq_dyn(&self, _o: &dyn Dyn) -> Option<bool> {
         None
     }
@@ -112,6 +116,15 @@ macro_rules! common_rng_methods {
         }
         fn clone_box(&self) -> Option<Box<dyn Dyn>> {
             Some(Box::new(Self(self.0.clone())))
+        }
+        fn clone_from_dyn(&mut self, o: &dyn Dyn) -> bool {
+            match o.as_any().downcast_ref::<Self>() {
+                Some(x) => {
+                    self.0.clone_from(&x.0);
+                    true
+                }
+                None => false,
+            }
         }
         fn debug(&self) -> (String, String) {
             (format!("{:?}", self.0), format!("{:#?}", self.0))
@@ -349,6 +362,22 @@ impl<F: Fn() -> u64 + Send + Sync + Clone + 'static> Dyn for DJitter<F> {
         }
         let cur = g[g.len() - 1].clone();
         Some(Box::new(DJitter { rng, cur }))
+    }
+    fn clone_from_dyn(&mut self, o: &dyn Dyn) -> bool {
+        let other = match o.as_any().downcast_ref::<Self>() {
+            Some(x) => x,
+            None => return false,
+        };
+        // the timer closure is cloned (its Clone registers a fresh cursor): adopt the newest registered cursor
+        let reg = self.cur_registry();
+        let before = reg.lock().unwrap().len();
+        self.rng.clone_from(&other.rng);
+        let g = reg.lock().unwrap();
+        if g.len() != before + 1 {
+            return false;
+        }
+        self.cur = g[g.len() - 1].clone();
+        true
     }
     fn debug(&self) -> (String, String) {
         (format!("{:?}", self.rng), format!("{:#?}", self.rng))
